@@ -13,7 +13,7 @@ SAN=none; TD=$ROOT/fuzz/target
 [ "$ID" = C11 ] && { SAN=address; TD=$ROOT/fuzz/target-asan; }
 [ -f "$ROOT/fuzz/fuzz_targets/$T.rs" ] || { echo "NOTE no fuzz target for $ID"; exit 2; }
 export CARGO_NET_OFFLINE=true
-( cd $ROOT/harness && RUSTFLAGS="--cfg zerokit_verif" cargo +nightly fuzz build --fuzz-dir $ROOT/fuzz --target-dir $TD -s $SAN $T > $ROOT/fuzz/build-$T.log 2>&1 ) || {
+[ -n "${VERIF_FUZZ_NOBUILD:-}" ] || ( cd $ROOT/harness && RUSTFLAGS="--cfg zerokit_verif" cargo +nightly fuzz build --fuzz-dir $ROOT/fuzz --target-dir $TD -s $SAN $T > $ROOT/fuzz/build-$T.log 2>&1 ) || {
   echo "NOTE fuzz stage unavailable for $ID: build failed (see fuzz/build-$T.log)"; tail -5 $ROOT/fuzz/build-$T.log; exit 2; }
 BIN=$TD/x86_64-unknown-linux-gnu/release/$T
 [ -x "$BIN" ] || { echo "NOTE fuzz binary missing: $BIN"; exit 2; }
